@@ -107,7 +107,23 @@ CUSTOM_VALUES = [
     {"zeta": {"alpha": 1, "Beta": 2}, "alpha": [1, {"z": 1, "a": 2}]},
     "2016-01-01T00:00:00Z", "2016-01-01T00:00:00.000000Z",
 ]
-CUSTOM_NAMES21 = ["x_foo", "x_a", "foo", "zzz_last", "abc", "x_created", "name_x"]
+# sizes / depths on both sides of plausible bounds, numbers at representation boundaries, text shapes
+def _nest(depth):
+    v = {"leaf": 1}
+    for i in range(depth):
+        v = {"k%d" % (i % 3): v, "a": i} if i % 2 else [v, i]
+    return v
+
+
+CUSTOM_VALUES += [list(range(n)) for n in (2, 9, 10, 11, 63, 64, 65, 100, 101, 255, 256)]
+CUSTOM_VALUES += [{("k%03d" % i): i for i in range(n)} for n in (10, 11, 64, 65)]
+CUSTOM_VALUES += [_nest(d) for d in (2, 9, 10, 11, 30)]
+CUSTOM_VALUES += ["x" * n for n in (1, 255, 256)]
+CUSTOM_VALUES += [7.0, -7.0, 2 ** 53 + 1, -(2 ** 53) - 1, 10 ** 21, 10 ** 22 + 1, 10 ** 400, 1e22, 1e16, 1.5e300, 5e-324, 2.5e-5,
+                  123456789.12345678, 0.1 + 0.2, 100.0, 1e2, -1e-7]
+CUSTOM_VALUES += ["quote \" and \\ backslash / slash", "multi__under___score", "UPPER-hex-ABCDEF", "a\u2028b\u2029c", "\U0001F600\U0001F9EA",
+                  "2016-01-01T00:00:00.5Z", "2016-01-01T00:00:00.250Z", "0999-01-01T00:00:00Z"]
+CUSTOM_NAMES21 = ["x_foo", "x_a", "foo", "zzz_last", "abc", "x_created", "name_x", "x__double", "x_a_b_c", "spec_version_x", "x_type"]
 CUSTOM_NAMES20 = CUSTOM_NAMES21 + ["X_upper", "_lead", "0", "7", "x-dash"]
 
 
@@ -284,6 +300,13 @@ def gen_cases(run, per_class):
                 for sl in gen.classes[cid]["slots"]:
                     if (sl.get("default") or {}).get("d") in ("now", "uuid4"):
                         o.pop(sl["name"], None)
+            if r.random() < 0.3:
+                # timestamps with every number of fraction digits the reader accepts (0, 1, 2, 3, 4, 6) and values like .250 / .5
+                for sl in gen.classes[cid]["slots"]:
+                    v = o.get(sl["name"])
+                    if sl["kind"]["k"] == "time" and isinstance(v, str) and v.endswith("Z") and "T" in v and r.random() < 0.7:
+                        base = v[:-1].split(".")[0]
+                        o[sl["name"]] = base + r.choice(["", ".5", ".25", ".250", ".123", ".1234", ".123456", ".000001", ".100000", ".000"]) + "Z"
             custom = r.random() < 0.35
             if custom:
                 inject_custom(gen, cid, o)
@@ -307,6 +330,8 @@ def gen_cases(run, per_class):
                         between.append({"route": "parse", "cid": cid, "data": ob, "allow": True})
                     except (IndexError, ValueError, KeyError):
                         pass
+                # ... and a call that FAILS in between (wrong type of the identifier)
+                between.append({"route": "parse", "cid": cid, "data": dict(o, id=12345), "allow": False})
                 slots = {sl["name"] for sl in gen.classes[cid]["slots"]}
                 fixed_text = all(k in o for k in ("id", "created", "modified") if k in slots) and \
                     not any((sl.get("default") or {}).get("d") in ("now", "uuid4") and sl["name"] not in o for sl in gen.classes[cid]["slots"])
